@@ -300,7 +300,7 @@ extern int mpt_axis_get(const MPT_STRUCT(axis) *ax, MPT_STRUCT(property) *pr)
 		pr->desc = "mpt axis data";
 		MPT_value_set(&pr->val, 0, format);
 		
-		return ax && memcmp(ax, &def_axis, sizeof(*ax)) ? 1 : 0;
+		return ax && memcmp(ax, &def_axis, MPT_offset(axis,tpos) + sizeof(ax->tpos)) ? 1 : 0;
 	}
 	/* find property by name */
 	else {
